@@ -24,6 +24,18 @@ VALUE = "tsg::graph::Value"
 def run(prog, rep):
     rep.rule("E8.j", "JSON writer tables (see level text)")
     sers = {f.self_path: f for f in prog.fns.values() if f.trait == "serde::Serialize" and f.name == "serialize" and f.file == "src/graph.rs"}
+    # ---- Identifier: attribute names (the keys of every `attrs` object) are written as they are
+    idf = [f for f in prog.fns.values() if f.trait == "serde::Serialize" and f.name == "serialize" and f.self_path == "tsg::Identifier"]
+    if len(idf) != 1:
+        rep.violation("E8.j", "anchor-lost:Serialize for Identifier", "", "not found")
+    else:
+        f = idf[0]
+        tr = Tracer(f.body)
+        ss = [(b, t) for b, t in f.body.calls() if is_callee(t, r"serde::Serializer::serialize_\w+$")]
+        arg = canon(strip(tr.operand(ss[0][1]["args"][1]))) if len(ss) == 1 else ""
+        rep.check(len(ss) == 1 and is_callee(ss[0][1], r"serialize_str$") and re.match(r"^(Identifier::as_str\(&\*arg:self\)|String::as_str\(&\*Deref::deref\(&\*arg:self\.0\)\)|Deref::deref\(&\*Deref::deref\(&\*arg:self\.0\)\))$", arg.lstrip("&*")) is not None,
+                  "E8.j", "Identifier :: written as is", f.loc(), "serialize_str(self.as_str())",
+                  "an attribute name is not serialised as its own text (%s): distinct names can collide or change in the JSON output" % (arg[:100] or "%d serializer calls" % len(ss)))
     # ---- Value
     f = sers.get(VALUE)
     if f is None:
@@ -88,22 +100,53 @@ def run(prog, rep):
         out.sort(key=lambda x: sum(1 for y in out if f.body.dominates(y[0], x[0])))
         return [(k, v) for _b, k, v in out]
 
+    def built_from(wrapper):
+        """{field of the private wrapper: what its (single) construction site puts there}, as canon text of the constructing body"""
+        sites = []
+        for g in prog.fns.values():
+            if g.body is None or g.file != "src/graph.rs":
+                continue
+            gtr = None
+            for b in sorted(g.body.reachable()):
+                for st in g.body.blocks[b]["stmts"]:
+                    if st["k"] == "assign" and st["rv"]["k"] == "aggregate" and st["rv"].get("adt") == wrapper:
+                        gtr = gtr or Tracer(g.body)
+                        sites.append({fld: canon(strip(gtr.operand(op))) for fld, op in zip(st["rv"]["fields"], st["rv"]["ops"])})
+        return sites[0] if len(sites) == 1 else None
+
+    def through(wrapper, text):
+        """an entry value of the wrapper's serializer, with `self.<field>` replaced by what the construction site stored there"""
+        m = built_from(wrapper)
+        if m is None:
+            return None
+        for fld, val in sorted(m.items(), key=lambda kv: -len(kv[0])):
+            text = re.sub(r"arg:self\.%s\b" % re.escape(fld), lambda _m: "<" + val + ">", text)
+        return text
+
+    ITEM = r"\(Iterator::next\(.*\) as Some\)\.0"
     f = sers.get("tsg::graph::SerializeGraphNode")
     if f is None:
         rep.violation("E8.j", "anchor-lost:SerializeGraphNode", "", "not found")
     else:
         es = entries_of(f)
-        want = [('"id"', r"^\*arg:self\.0$"), ('"edges"', r"^graph::SerializeGraphNodeEdges::SerializeGraphNodeEdges\{&\*\*arg:self\.1\.outgoing_edges\}$"), ('"attrs"', r"^\*\*arg:self\.1\.attributes$")]
-        ok = len(es) == 3 and all(es[i][0] == want[i][0] and re.match(want[i][1], es[i][1]) for i in range(3))
-        rep.check(ok, "E8.j", "node object", f.loc(), "{id: index, edges: outgoing_edges, attrs: attributes}", "a graph node is serialised as %s" % es)
+        rs = [(k, through("tsg::graph::SerializeGraphNode", v) or v) for k, v in es]
+        # id ← the enumerate index of the node; edges ← the node's whole edge vector; attrs ← the node's attributes
+        want = [('"id"', r"^\**<" + ITEM + r"\.0>$", "enumerate"),
+                ('"edges"', r"^graph::SerializeGraphNodeEdges::SerializeGraphNodeEdges\{&\**(SmallVec::as_slice\(&\**)?<&?\*?" + ITEM + r"\.1>\.outgoing_edges\)?\}$", ""),
+                ('"attrs"', r"^\**<&?\*?" + ITEM + r"\.1>\.attributes$", "")]
+        ok = len(rs) == 3 and all(rs[i][0] == want[i][0] and re.match(want[i][1], rs[i][1]) and want[i][2] in rs[i][1] for i in range(3))
+        rep.check(ok, "E8.j", "node object", f.loc(), "{id: index, edges: outgoing_edges, attrs: attributes}", "a graph node is serialised as %s" % [(k, v[-90:]) for k, v in rs])
     f = sers.get("tsg::graph::SerializeGraphNodeEdge")
     if f is None:
         rep.violation("E8.j", "anchor-lost:SerializeGraphNodeEdge", "", "not found")
     else:
         es = entries_of(f)
-        want = [('"sink"', r"^\*\*arg:self\.0\.0$"), ('"attrs"', r"^\*\*arg:self\.0\.1\.attributes$")]
-        ok = len(es) == 2 and all(es[i][0] == want[i][0] and re.match(want[i][1], es[i][1]) for i in range(2))
-        rep.check(ok, "E8.j", "edge object", f.loc(), "{sink: edge.0, attrs: edge.1.attributes}", "an edge is serialised as %s" % es)
+        rs = [(k, through("tsg::graph::SerializeGraphNodeEdge", v) or v) for k, v in es]
+        # sink ← the first half of the iterated (sink, edge) pair; attrs ← the attributes of its second half
+        want = [('"sink"', r"^\**<&?\*?" + ITEM + r">\.0$|^\**<\*?" + ITEM + r"\.0>$"),
+                ('"attrs"', r"^\**<&?\*?" + ITEM + r">\.1\.attributes$|^\**<&?\*?" + ITEM + r"\.1\.attributes>$")]
+        ok = len(rs) == 2 and all(rs[i][0] == want[i][0] and re.match(want[i][1], rs[i][1]) for i in range(2))
+        rep.check(ok, "E8.j", "edge object", f.loc(), "{sink: edge.0, attrs: edge.1.attributes}", "an edge is serialised as %s" % [(k, v[-90:]) for k, v in rs])
     # sequences: whole container, forward, one element per iteration
     for ty, field_pat, elem_pat, what in (
             ("tsg::graph::Graph", r"Iterator::enumerate\(slice::iter\(&\*Deref::deref\(&\*arg:self\.graph_nodes\)\)\)", r"SerializeSeq::serialize_element$", "graph: every node, in index order, id = enumerate index"),
